@@ -1,31 +1,38 @@
 (* Logical-clock model of a blocking call's wait (C18).  Time is in nanoseconds (Z).  [arrivals] are the datagrams
    reaching the socket after the request was sent, sorted by arrival time, each tagged with whether the receive path
    would accept it (C04 / C10 decide that); a datagram that arrived while the client was busy is read at once.
-   Sync client (src/socket/snmpsocket.rs::_recv_inner): SO_RCVTIMEO is armed for EVERY recv of the skip loop.
-   Async client (async_client/client.py::_recv): one asyncio.wait_for deadline around the whole loop. *)
+   Sync client (src/socket/snmpsocket.rs::_recv_inner / _recv_until): one deadline for the whole call; before every
+   recv of the skip loop SO_RCVTIMEO is set to the time left (a remainder below 1 ms counts as expired).
+   Async client (async_client/client.py::_recv): one asyncio.wait_for deadline around the whole loop.
+   [rearming_wait] is the loop of the pinned commit (SO_RCVTIMEO armed afresh for every recv), kept to state why that
+   was a defect (repaired by a fix: commit, see known_findings.json). *)
 From GS Require Import Model.Base.
 
 Definition arrival := (Z * bool)%type.     (* (time, accepted by the receive path) *)
 
 (* returns (time at which the call returns, delivered?) *)
-Fixpoint sync_wait (T now : Z) (arr : list arrival) : Z * bool :=
+Fixpoint rearming_wait (T now : Z) (arr : list arrival) : Z * bool :=
   match arr with
   | [] => (now + T, false)
   | (t, ok) :: r =>
     let t' := Z.max t now in
-    if t' <=? now + T then (if ok then (t', true) else sync_wait T t' r)
+    if t' <=? now + T then (if ok then (t', true) else rearming_wait T t' r)
     else (now + T, false)
   end.
 
-Fixpoint async_wait (deadline now : Z) (arr : list arrival) : Z * bool :=
+Fixpoint deadline_wait (deadline now : Z) (arr : list arrival) : Z * bool :=
   match arr with
   | [] => (deadline, false)
   | (t, ok) :: r =>
     let t' := Z.max t now in
-    if t' <=? deadline then (if ok then (t', true) else async_wait deadline t' r)
+    if t' <=? deadline then (if ok then (t', true) else deadline_wait deadline t' r)
     else (deadline, false)
   end.
 
 (* k stray (non-matching) datagrams spaced [gap] apart, starting [gap] after [t0] *)
 Fixpoint strays (k : nat) (t gap : Z) : list arrival :=
   match k with O => [] | S k' => (t + gap, false) :: strays k' (t + gap) gap end.
+
+(* both clients as they are now: the call made at t0 with timeout T *)
+Definition sync_wait (T t0 : Z) (arr : list arrival) : Z * bool := deadline_wait (t0 + T) t0 arr.
+Definition async_wait (T t0 : Z) (arr : list arrival) : Z * bool := deadline_wait (t0 + T) t0 arr.
